@@ -50,6 +50,8 @@ import time
 
 import z3
 
+from vc import backends
+
 from spec import thrift_idl
 from vc.symexec import (Engine, Path, CI, PyI, PyB, Ref, View, LoopSpec, Unsupported, NONE, NoneV, Opaque, Custom, Str, Tup, Opt,
                         BUILTINS, AbstractComp)
@@ -174,7 +176,7 @@ def dstore(p, d, key, v):
 
 def must(p, cond, timeout=800):
     s = z3.Solver()
-    s.set("timeout", timeout)
+    s.set("timeout", backends.scaled_timeout(timeout))
     s.add(*BASE)
     s.add(*p.pc)
     s.add(z3.Not(cond))
@@ -183,7 +185,7 @@ def must(p, cond, timeout=800):
 
 def may(p, cond, timeout=800):
     s = z3.Solver()
-    s.set("timeout", timeout)
+    s.set("timeout", backends.scaled_timeout(timeout))
     s.add(*BASE)
     s.add(*p.pc)
     s.add(cond)
